@@ -112,3 +112,22 @@ fn split_first_meta_var(
   };
   Some((var, skipped + i))
 }
+
+#[cfg(feature = "verif-hooks")]
+pub mod verif_hooks {
+  pub use super::indent::verif_hooks as indent;
+  pub use super::template::verif_hooks as template;
+  /// (kind, name, skipped) with kind 0 = Single, 1 = Multiple, 2 = Transformed
+  pub fn split_first_meta_var_dump(
+    src: &str,
+    meta_char: char,
+    transform: &[String],
+  ) -> Option<(u8, String, usize)> {
+    use super::MetaVarExtract as M;
+    super::split_first_meta_var(src, meta_char, transform).map(|(v, skipped)| match v {
+      M::Single(n) => (0, n, skipped),
+      M::Multiple(n) => (1, n, skipped),
+      M::Transformed(n) => (2, n, skipped),
+    })
+  }
+}
